@@ -5,6 +5,10 @@ Correspondence: generated exact timelines rounded to 2..5 decimals, built as rea
 interpreters (through `select_rendering_items`), compared with the Lean model (c15driver) as exact
 fractions.  Every documented entry point is exercised in-process.  Search: the property text as a
 predicate on the real code's output only.
+
+Whole documents (several audioObjects / packs / channels, nested packs and objects, shared and silent tracks): the real
+repair vs the document-level model (driver op `doc`), which computes the audioObject -> audioChannelFormat pairing with
+the pack-allocator model; the Lean rounding functions (half-even / floor / ceil) vs the generator's `rnd` (op `round`).
 """
 import math
 import os
@@ -563,6 +567,343 @@ def channel_blocks(adm, cf_id):
     return [block_str(*b) for b in blocks_of(cf)]
 
 
+# --------------------------------------------------------------------------------------
+# whole documents: which audioObjects clamp which audioChannelFormats (Model/TimingFixDoc.lean)
+#
+# A generated document is a dict
+#   {"k": digits, "chans": [case-like {"typ", "blocks"}], "packs": [{"typ", "channels": [ci], "subs": [pi]}],
+#    "objs": [{"start", "duration", "packs": [pi], "tracks": [(ci, pi) | None], "children": [oi]}],
+#    "covers": [[ci...] per object]   # by construction: the channels of the pack trees the object references
+#    "v1": bool, "origin": str}
+
+
+def _tree_channels(packs, root):
+    out = list(packs[root]["channels"])
+    for s in packs[root]["subs"]:
+        out += _tree_channels(packs, s)
+    return out
+
+
+def _paths_to(packs, root, ci, path=()):
+    path = path + (root,)
+    if ci in packs[root]["channels"]:
+        return path
+    for s in packs[root]["subs"]:
+        r = _paths_to(packs, s, ci, path)
+        if r:
+            return r
+    return None
+
+
+def gen_doc(rng, k):
+    chans, packs, roots = [], [], []
+    for _ in range(rng.choice([1, 1, 2])):
+        typ = rng.choice("OOD")
+
+        def new_pack(nch):
+            cis = []
+            for _ in range(nch):
+                c = gen_timeline(rng, k, rng.randint(1, 4), typ, conv=rng.choice(_CONVS))
+                chans.append({"typ": typ, "blocks": c["blocks"]})
+                cis.append(len(chans) - 1)
+            packs.append({"typ": typ, "channels": cis, "subs": []})
+            return len(packs) - 1
+
+        shape = rng.random()
+        if shape < 0.55:
+            root = new_pack(rng.randint(1, 2))
+        elif shape < 0.85:
+            root = new_pack(rng.randint(0, 1))
+            packs[root]["subs"].append(new_pack(rng.randint(1, 2)))
+        else:
+            root = new_pack(rng.randint(0, 1))
+            mid = new_pack(rng.randint(0, 1))
+            packs[root]["subs"].append(mid)
+            packs[mid]["subs"].append(new_pack(1))
+            if rng.random() < 0.5:
+                packs[root]["subs"].append(new_pack(1))
+        roots.append(root)
+    unit = F(1, 10**k)
+    ends = []
+    for c in chans:
+        r, d = c["blocks"][-1][0], c["blocks"][-1][1]
+        ends.append(r + d)
+    objs, covers = [], []
+    for _ in range(rng.randint(1, 4)):
+        # a root pack, sometimes an inner pack (then only its subtree is covered), sometimes two roots
+        cand = list(range(len(packs))) if rng.random() < 0.2 else roots
+        mine = [rng.choice(cand)]
+        if len(roots) > 1 and rng.random() < 0.2:
+            mine = list(roots)
+        cov = [ci for p_ in mine for ci in _tree_channels(packs, p_)]
+        tracks = []
+        for p_ in mine:
+            for ci in _tree_channels(packs, p_):
+                tracks.append((ci, rng.choice(_paths_to(packs, p_, ci))))
+        if tracks and rng.random() < 0.15:
+            tracks[rng.randrange(len(tracks))] = None  # silent track: the channel is still allocated
+        rng.shuffle(tracks)
+        dsel = rng.random()
+        if dsel < 0.3 or not cov:
+            dur = None
+        elif dsel < 0.7:
+            dur = max(ends[ci] for ci in cov)
+        elif dsel < 0.9:
+            dur = max(ends[ci] for ci in cov) + rng.choice([unit * rng.randint(1, 3), _ratio(rng, 0, 2)])
+        else:
+            dur = min(ends[ci] for ci in cov) - rng.choice([F(0), unit, unit * 7])  # may cut into / before a last block
+        start = rng.choice([None, None, F(0), _ratio(rng, 0, 5)])
+        objs.append({"start": rnd(start, k), "duration": rnd(dur, k), "packs": mine, "tracks": tracks, "children": []})
+        covers.append(cov)
+    origin = "doc"
+    if rng.random() < 0.12:
+        # inconsistent references: drop a track of one object (conflicting), with or without a duration
+        oi = rng.randrange(len(objs))
+        if objs[oi]["tracks"]:
+            objs[oi]["tracks"].pop()
+            origin = "doc-bad-refs"
+    # nesting: children are ordinary objects of the document; an extra parent without own references
+    # (document validation only accepts start/duration on audioObjects without audioObject references; a minority
+    # of parents keeps its timing: the repair still runs on such a document, the renderer rejects it)
+    for j in range(1, len(objs)):
+        if rng.random() < 0.3:
+            par = objs[rng.randrange(j)]
+            par["children"].append(j)
+            if rng.random() < 0.8:
+                par["start"], par["duration"] = None, None
+    if rng.random() < 0.25:
+        objs.append({"start": None, "duration": rng.choice([None, None, None, F(1), unit]), "packs": [], "tracks": [],
+                     "children": [rng.randrange(len(objs))]})
+        covers.append([])
+    return {"k": k, "chans": chans, "packs": packs, "objs": objs, "covers": covers, "v1": rng.random() < 0.5,
+            "origin": origin}
+
+
+def enc_doc(d):
+    return {"k": d["k"], "v1": d["v1"], "origin": d["origin"],
+            "chans": [{"typ": c["typ"], "blocks": [[fs(r), fs(x), int(bool(jp)), fs(il)] for r, x, jp, il in c["blocks"]]}
+                      for c in d["chans"]],
+            "packs": d["packs"],
+            "objs": [{"start": fs(o["start"]), "duration": fs(o["duration"]), "packs": o["packs"],
+                      "tracks": o["tracks"], "children": o["children"]} for o in d["objs"]]}
+
+
+def build_doc_adm(d):
+    """Real ADM for a generated document (elements created in index order, so positions in the adm lists are the
+    document's indices)."""
+    from ear.fileio.adm.builder import ADMBuilder
+    from ear.fileio.adm.elements import (AudioChannelFormat, AudioPackFormat, AudioTrackUID, AudioObject,
+                                         AudioStreamFormat, AudioTrackFormat, TypeDefinition, FormatDefinition)
+    from ear.fileio.adm.generate_ids import generate_ids
+
+    b = ADMBuilder() if d["v1"] else ADMBuilder.for_version(2)
+    b.create_programme(audioProgrammeName="prog")
+    content = b.create_content(audioContentName="content")
+    T = {"O": TypeDefinition.Objects, "D": TypeDefinition.DirectSpeakers}
+    cfs, tfs = [], []
+    for ci, c in enumerate(d["chans"]):
+        cf = AudioChannelFormat(audioChannelFormatName="ch%d" % ci, type=T[c["typ"]],
+                                audioBlockFormats=[_bf(c["typ"], *blk) for blk in c["blocks"]])
+        b.adm.addAudioChannelFormat(cf)
+        cfs.append(cf)
+        if d["v1"]:
+            sf = AudioStreamFormat(audioStreamFormatName="ch%d" % ci, format=FormatDefinition.PCM, audioChannelFormat=cf)
+            b.adm.addAudioStreamFormat(sf)
+            tf = AudioTrackFormat(audioTrackFormatName="ch%d" % ci, audioStreamFormat=sf, format=FormatDefinition.PCM)
+            b.adm.addAudioTrackFormat(tf)
+            tfs.append(tf)
+    pfs = []
+    for pi, p_ in enumerate(d["packs"]):
+        pf = AudioPackFormat(audioPackFormatName="pack%d" % pi, type=T[p_["typ"]],
+                             audioChannelFormats=[cfs[ci] for ci in p_["channels"]])
+        b.adm.addAudioPackFormat(pf)
+        pfs.append(pf)
+    for pi, p_ in enumerate(d["packs"]):
+        pfs[pi].audioPackFormats = [pfs[s] for s in p_["subs"]]
+    aos, track = [], 0
+    for oi, o in enumerate(d["objs"]):
+        uids = []
+        for t in o["tracks"]:
+            if t is None:
+                uids.append(None)
+                continue
+            track += 1
+            u = AudioTrackUID(trackIndex=track, audioPackFormat=pfs[t[1]])
+            if d["v1"]:
+                u.audioTrackFormat = tfs[t[0]]
+            else:
+                u.audioChannelFormat = cfs[t[0]]
+            b.adm.addAudioTrackUID(u)
+            uids.append(u)
+        ao = AudioObject(audioObjectName="obj%d" % oi, audioPackFormats=[pfs[p_] for p_ in o["packs"]], audioTrackUIDs=uids,
+                         start=o["start"], duration=o["duration"])
+        b.adm.addAudioObject(ao)
+        aos.append(ao)
+    nested = {c for o in d["objs"] for c in o["children"]}
+    for oi, o in enumerate(d["objs"]):
+        aos[oi].audioObjects = [aos[c] for c in o["children"]]
+        if oi not in nested:
+            content.audioObjects.append(aos[oi])
+    generate_ids(b.adm)
+    return b.adm, cfs, pfs, aos
+
+
+def doc_line(d):
+    """Line for the driver's `doc` op: the small document of Model/TimingFixDoc.lean (no nesting: the repair never
+    reads audioObject -> audioObject references, which is exactly what the comparison with the real code checks)."""
+    lst = lambda xs: "+".join(str(x) for x in xs) if xs else "_"
+    uids, objs = [], []
+    for o in d["objs"]:
+        tr = []
+        for t in o["tracks"]:
+            if t is None:
+                tr.append("s")
+            else:
+                uids.append("%d,%d" % t)
+                tr.append(len(uids) - 1)
+        objs.append("%s,%s,%s,%s" % (fs(o["start"]), fs(o["duration"]), lst(o["packs"]), lst(tr)))
+    packs = ["%d,%s,%s" % (3 if p_["typ"] == "O" else 1, lst(p_["channels"]), lst(p_["subs"])) for p_ in d["packs"]]
+    chans = []
+    for c in d["chans"]:
+        is_obj = c["typ"] == "O"
+        chans.append(" ".join(block_str(r, x, is_obj, jp if is_obj else False, il if is_obj else None)
+                              for r, x, jp, il in c["blocks"]))
+    return "doc | %s | %s | %s | %s" % (" ".join(objs), " ".join(packs), " ".join(uids), " ; ".join(chans))
+
+
+def parse_doc_model(line):
+    parts = [x.strip() for x in line.split("|")]
+    if not parts[0].startswith("pairs"):
+        return {"bad": line}
+    res = {"pairs": parts[0].split()[1:]}
+    if parts[1].startswith("error"):
+        res["status"] = parts[1]
+        return res
+    res["status"] = "ok"
+    res["table"] = [x.split() for x in parts[2].split(";")] if parts[2] else []
+    res["warns"] = parts[3].split()
+    res["second"] = parts[4]
+    return res
+
+
+def real_doc_fix(d):
+    """The real repair on the real document, in the shape of `parse_doc_model`; plus the raw data the predicate uses."""
+    from ear.core.select_items.select_items import ObjectChannelMatcher
+    from ear.fileio.adm.exceptions import AdmFormatRefError
+    from ear.fileio.adm import timing_fixes
+
+    adm, cfs, pfs, aos = build_doc_adm(d)
+    handles = [(cf, []) for cf in cfs]
+    idx = {id(cf): i for i, cf in enumerate(cfs)}
+    matcher = ObjectChannelMatcher(adm)
+    pairs = []
+    for ao in aos:
+        try:
+            cs = [idx[id(cf)] for cf in matcher.get_channel_formats_for_object(ao)]
+            pairs.append("+".join(map(str, cs)) if cs else "_")
+        except AdmFormatRefError:
+            pairs.append("x")
+    before = [blocks_of(cf) for cf in cfs]
+
+    def run():
+        with warnings.catch_warnings(record=True) as ws:
+            warnings.simplefilter("always")
+            try:
+                timing_fixes.fix_blockFormat_timings(adm)
+                err = None
+            except AdmFormatRefError:
+                err = "error formatRef"
+            except Exception as e:
+                err = _err_kind(e)
+        per, other = map_warnings(ws, handles)
+        bfid = {bf.id: (ci, bi) for ci, cf in enumerate(cfs) for bi, bf in enumerate(cf.audioBlockFormats)}
+        glob = []
+        for w in ws:
+            msg = str(w.message)
+            for pat, kind in _WARN_PATTERNS:
+                m = pat.match(msg)
+                if m and m.group(1) in bfid:
+                    glob.append("%d:%s:%d" % (bfid[m.group(1)][0], kind, bfid[m.group(1)][1]))
+                    break
+        return err, glob, other
+
+    err, warns, other = run()
+    res = {"pairs": pairs, "status": err or "ok", "other": other, "adm": adm, "cfs": cfs, "aos": aos, "before": before}
+    if err:
+        return res
+    res["raw"] = [blocks_of(cf) for cf in cfs]
+    res["table"] = [[block_str(*b) for b in blocks_of(cf)] for cf in cfs]
+    res["warns"] = warns
+    err2, warns2, other2 = run()
+    res["second"] = "same" if (not err2 and not warns2 and [[block_str(*b) for b in blocks_of(cf)] for cf in cfs] == res["table"]) else "differs"
+    res["second_detail"] = (err2, warns2)
+    return res
+
+
+def doc_excluded(d):
+    """None if every channel meets the theorems' hypotheses for the audioObjects that cover it *by construction*
+    (the object's pack trees contain the channel) and all references are consistent; else what is broken."""
+    if d["origin"] == "doc-bad-refs":
+        return "inconsistent-references"
+    if any(o["children"] and (o["start"] is not None or o["duration"] is not None) for o in d["objs"]):
+        return "nested-parent-with-timing"
+    for ci, c in enumerate(d["chans"]):
+        objs = [(o["start"], o["duration"]) for o, cov in zip(d["objs"], d["covers"]) for x in cov if x == ci]
+        e = classify({"blocks": c["blocks"], "objs": objs})
+        if e:
+            return e
+    return None
+
+
+def doc_predicate(d, r):
+    """The property on a repaired real document, written from the property text: `its object` = every audioObject
+    for which the renderer's own item selection produces an item with this channel."""
+    from ear.core.select_items import select_rendering_items
+    from ear.core.objectbased.renderer import InterpretObjectMetadata
+    from ear.core.direct_speakers.renderer import InterpretDirectSpeakersMetadata
+    from ear.core.metadata_input import ObjectRenderingItem
+
+    bad = []
+    if r["status"] != "ok":
+        return [("repair of the document raised", r["status"])]
+    for ci, (b0, b1) in enumerate(zip(r["before"], r["raw"])):
+        if [b[0] for b in b0] != [b[0] for b in b1]:
+            bad.append(("channel %d: rtime changed" % ci, [fs(b[0]) for b in b1]))
+        for i, (a, b) in enumerate(zip(b1[:-1], b1[1:])):
+            if a[0] is not None and a[1] is not None and b[0] is not None and a[0] + a[1] != b[0]:
+                bad.append(("channel %d: blocks %d,%d not contiguous" % (ci, i, i + 1), [fs(a[0]), fs(a[1]), fs(b[0])]))
+        for i, b in enumerate(b1):
+            if b[2] and b[3] and b[4] is not None and b[1] is not None and b[4] > b[1]:
+                bad.append(("channel %d: interpolationLength of block %d exceeds its duration" % (ci, i), [fs(b[4]), fs(b[1])]))
+    if r["second"] != "same":
+        bad.append(("second repair of the document changed something or warned", r["second_detail"]))
+    with warnings.catch_warnings():
+        warnings.simplefilter("ignore")
+        items = select_rendering_items(r["adm"])
+    idx = {id(cf): i for i, cf in enumerate(r["cfs"])}
+    seen = set()
+    for it in items:
+        cf, obj = it.adm_path.audioChannelFormat, it.adm_path.audioObjects[-1]
+        ci = idx[id(cf)]
+        seen.add((r["aos"].index(obj), ci))
+        for i, b in enumerate(r["raw"][ci]):
+            if obj.duration is not None and b[0] is not None and b[1] is not None and b[0] + b[1] > obj.duration:
+                bad.append(("channel %d: block %d extends past the duration of %s" % (ci, i, obj.audioObjectName),
+                            [fs(b[0]), fs(b[1]), fs(obj.duration)]))
+        interp = (InterpretObjectMetadata if isinstance(it, ObjectRenderingItem) else InterpretDirectSpeakersMetadata)(lambda blk: None)
+        try:
+            while True:
+                blk = it.metadata_source.get_next_block()
+                if blk is None:
+                    break
+                list(interp(SR, blk))
+        except Exception as e:
+            bad.append(("channel %d: metadata interpreter rejects the repaired channel for %s" % (ci, obj.audioObjectName),
+                        _verdict_of_exc(e)))
+    r["rendered_pairs"] = seen
+    return bad
+
+
 class C15(Spec):
     pid = "C15"
     lean_targets = ("Earverif.Props.C15", "c15driver")
@@ -574,6 +915,15 @@ class C15(Spec):
             "fix_accepted_by_renderer", "fix_idempotent", "fix_second_run_silent", "fix_post",
             "rounding_meets_hypotheses", "rounding_meets_hypotheses_dec", "perturbation_meets_hypotheses",
             "roundDec_mono", "roundDec_err",
+            # the deprecated reader option (duration pass only)
+            "fixDurationsOnly_spec", "fixDurationsOnly_hyp", "fixTimings_eq_stages", "fixTimings_after_durationsOnly",
+            "durationsOnly_leaves_interp_too_long", "durationsOnly_leaves_block_past_object",
+            # the rounding functions the generator really applies (Python round = half-even, floor, ceil)
+            "roundHalfEven_rounding", "floorDec_rounding", "ceilDec_rounding", "roundHalfEven_meets_hypotheses",
+            "floorDec_meets_hypotheses", "ceilDec_meets_hypotheses", "mixed_rounding_meets_hypotheses",
+            # whole documents: the (audioObject, audioChannelFormat) pairing is computed by the allocator model
+            "docFix_channel", "docFix_ok", "docFix_stable", "doc_fix_post", "doc_fix_idempotent_silent",
+            "smallDoc_fix_post", "selectPackMapping_leaf", "excluded_doc_conflicting_refs",
             "excluded_start_at_object_end", "excluded_negative_last_duration", "excluded_rtime_xor_duration",
             "excluded_two_untimed", "excluded_decreasing_rtimes",
         )
@@ -582,8 +932,10 @@ class C15(Spec):
         "model Earverif/Model/TimingFix.lean is a hand transliteration of timing_fixes.py (fix=True paths), "
         "InterpretTimingMetadata.block_start_end and the interpolation checks of InterpretObjectMetadata.__call__, "
         "per audioChannelFormat; warnings are modelled as a returned list of (kind, block index)",
-        "ObjectChannelMatcher/select_rendering_items are trusted to enumerate (audioObject, audioChannelFormat) pairs "
-        "as the model's `objs` list does (exercised, not modelled)",
+        "the (audioObject, audioChannelFormat) pairing of check_blockFormat_times_for_audioObjects is modelled "
+        "(Model/TimingFixDoc.lean: ObjectChannelMatcher = the C06/C07 pack-allocator model on the audioObject's own "
+        "references) for documents with Objects/DirectSpeakers packs (nested packs, shared and silent tracks, several "
+        "packs per object); Matrix/HOA packs are outside the small document type",
     )
     assumptions = (
         "theorem hypotheses (Hyp): the channel is a single block without rtime/duration, or every block has rtime and "
@@ -607,7 +959,12 @@ class C15(Spec):
         "jumpPosition or DirectSpeakers; object start/duration present or absent; 12% share the channel between two "
         "objects; plus single untimed blocks, timelines with durations below the unit (collapsing blocks) and "
         "purpose-built excluded points. non-trivial = the first repair changed something or raised; distinct by "
-        "(type, blocks, objects)"
+        "(type, blocks, objects). Whole documents: 1-2 pack trees (own channels, nested packs up to depth 3), 1-5 "
+        "audioObjects referencing a root pack, an inner pack or two roots, with one audioTrackUID per covered channel "
+        "(audioPackFormat reference anywhere on the pack path, 15% one silent track, v1 or v2 references), durations "
+        "absent / end of the longest channel / beyond / inside a last block, 12% one track dropped (inconsistent "
+        "references), nested audioObjects with and without own timing. Rounding: values with awkward denominators, "
+        "exact ties, exactly representable and negative values, k in 2..5, modes nearest/floor/ceil"
     )
 
     # ---- library entry point: correspondence + predicate
@@ -738,7 +1095,94 @@ class C15(Spec):
         groups = self._stream(ctx, n)
         for i in range(0, len(groups), 4000):
             self._run_batch(ctx, driver, groups[i:i + 4000])
+        self._rounding(ctx, driver, 400 if ctx.quick else 5000)
+        self._documents(ctx, driver, 160 if ctx.quick else 4000)
         self.entry_points(ctx, driver)
+
+    # ---- the rounding functions of the theorems are the ones the generator applies
+
+    def _rounding(self, ctx, driver, n):
+        """harness `rnd` (Python round / math.floor / math.ceil on Fractions) vs Earverif.TimingFix.roundHalfEven /
+        floorDec / ceilDec, on the kind of values the generator rounds plus exact ties and negative values."""
+        rng = ctx.rng
+        qs = []
+        for _ in range(n):
+            k = rng.choice([2, 3, 4, 5])
+            x = rng.random()
+            if x < 0.3:  # exact tie of the nearest convention
+                v = F(2 * rng.randint(-3000, 3000) + 1, 2 * 10**k)
+            elif x < 0.4:  # exactly representable
+                v = F(rng.randint(-3000, 3000), 10**k)
+            else:
+                v = _ratio(rng, 0, 5) * rng.choice([1, 1, 1, -1])
+            qs.append((rng.choice("nfc"), k, v))
+        outs = driver.run(["round | %s %d %s" % (m, k, fs(v)) for m, k, v in qs])
+        for (m, k, v), o in zip(qs, outs):
+            want = fs(rnd(v, k, m))
+            tie = (v * 10**k * 2).denominator == 1 and (v * 10**k).denominator != 1
+            ctx.count("rounding:%s%s" % ({"n": "half-even", "f": "floor", "c": "ceil"}[m], "-tie" if tie else ""))
+            ctx.case(("round", m, k, v), tie)
+            if o != want:
+                ctx.disagree("harness rnd vs Earverif.TimingFix.roundHalfEven/floorDec/ceilDec", [m, k, fs(v)], o, want)
+            else:
+                ctx.validated()
+
+    # ---- whole documents: the traversal of check_blockFormat_times_for_audioObjects
+
+    def _documents(self, ctx, driver, n, use_model=True):
+        rng = ctx.rng
+        docs = [gen_doc(rng, rng.choice([2, 3, 4, 5])) for _ in range(n)]
+        outs = driver.run([doc_line(d) for d in docs]) if use_model else [None] * n
+        keys = ["pairs", "status", "table", "second"]
+        for d, o in zip(docs, outs):
+            try:
+                r = real_doc_fix(d)
+            except Exception as e:
+                ctx.hit("building/repairing the document raised unexpectedly", enc_doc(d),
+                        "%s: %s" % (type(e).__name__, e), ["unexpected-exception"])
+                continue
+            changed = r["status"] != "ok" or bool(r.get("warns"))
+            ctx.case(("doc", doc_line(d)), changed,
+                     sample={"doc": enc_doc(d), "pairs": r["pairs"], "status": r["status"], "warnings": r.get("warns")} if changed else None)
+            ctx.count("doc:objects:%d" % len(d["objs"]))
+            ctx.count("doc:channels:%d" % min(len(d["chans"]), 6))
+            if any(p_["subs"] for p_ in d["packs"]):
+                ctx.count("doc:feature:nested-packs")
+            if any(o["children"] for o in d["objs"]):
+                ctx.count("doc:feature:nested-objects")
+            if any(t is None for o in d["objs"] for t in o["tracks"]):
+                ctx.count("doc:feature:silent-track")
+            if any(len(o["packs"]) > 1 for o in d["objs"]):
+                ctx.count("doc:feature:two-packs-in-object")
+            shared = [ci for ci in range(len(d["chans"])) if sum(ci in cov for cov in d["covers"]) > 1]
+            if shared:
+                ctx.count("doc:feature:channel-shared-by-objects")
+            ctx.count("doc:refs:" + ("v1 trackFormat" if d["v1"] else "v2 direct channel"))
+            ctx.count("doc:outcome:" + r["status"].split(":")[0])
+            excl = doc_excluded(d)
+            if excl is None:
+                ctx.count("doc:in-hypotheses")
+                try:
+                    fails = doc_predicate(d, r)
+                except Exception as e:
+                    fails = [("item selection / interpretation of the repaired document raised", "%s: %s" % (type(e).__name__, e))]
+                for what, detail in fails:
+                    ctx.hit(what, enc_doc(d), detail, ["c15-predicate", "document"])
+            else:
+                outcome = r["status"] if r["status"] != "ok" else "repaired"
+                ctx.count("doc:excluded-point:%s => %s" % (excl, outcome.split(":")[0]))
+            if o is None:
+                continue
+            m = parse_doc_model(o)
+            if "bad" in m or any(m.get(k) != r.get(k) for k in keys) or r["other"]:
+                ctx.disagree("fix_blockFormat_timings on a whole document vs Earverif.TimingFix.Doc.fix "
+                             "(pairs = ObjectChannelMatcher per audioObject)", enc_doc(d),
+                             {k: m.get(k) for k in keys} if "bad" not in m else m,
+                             dict({k: r.get(k) for k in keys}, other=r["other"]))
+            else:
+                ctx.validated()
+            if r["status"] == "ok":
+                ctx.count("doc:firstrun-warnings:" + ("match" if m.get("warns") == r.get("warns") else "differ"))
 
     # ---- the other documented entry points
 
@@ -946,6 +1390,7 @@ class C15(Spec):
                 c["origin"] = "search-" + c["origin"]
             self._run_batch(ctx, None, [g], use_model=False)
             done += len(g)
+        self._documents(ctx, None, 1500 if deep else 60, use_model=False)
         if deep:
             # the reader option must keep working (it was missing once: fixed finding 1d5dfa7)
             self._reader_option_string(ctx, None, rng, 20)
@@ -959,16 +1404,37 @@ REGISTRY = dict(
     "blocks are all timed with weakly increasing rtimes and last rtime before every object's end (or a single untimed "
     "block) that the model of fix_blockFormat_timings succeeds, leaves rtimes unchanged, makes blocks contiguous, "
     "interpolation lengths <= durations, blocks inside every referencing object, the model of the renderer's timing "
-    "checks accept the channel, and a second repair returns the same blocks with no warnings; "
-    "rounding_meets_hypotheses shows that rounding a valid exact timeline whose durations exceed 10^-k to k decimals "
-    "lands inside these hypotheses. The model is tied to the code on every run by repairing real ADM documents "
-    "(generated timelines rounded to 2..5 decimals) with the real function, interpreting them with the real metadata "
-    "interpreters and diffing exact fractions/verdicts against the Lean driver; all entry points (library, ear-render "
-    "and ear-utils options, reader option of load_axml_string/openBw64Adm) are run in-process.",
+    "checks accept the channel, and a second repair returns the same blocks with no warnings. "
+    "doc_fix_post / doc_fix_idempotent_silent lift this to whole documents: the model of "
+    "check_blockFormat_times_for_audioObjects' traversal (ObjectChannelMatcher = the C06/C07 pack-allocator model run on "
+    "each audioObject's own audioPackFormat/audioTrackUID references; nested audioObjects are not followed) is proved "
+    "(docFix_channel, docFix_ok, docFix_stable) to act on every audioChannelFormat as the per-channel model with objs = "
+    "the audioObjects whose allocation contains it, so the object-to-channel pairing is computed, not assumed; "
+    "selectPackMapping_leaf shows the renderer pairs a leaf audioObject with the same channels. "
+    "rounding_meets_hypotheses with the instances roundHalfEven_meets_hypotheses (Python round = half-even, what the "
+    "generator applies), floorDec_/ceilDec_meets_hypotheses and mixed_rounding_meets_hypotheses (each value "
+    "independently nearest/truncated/rounded up, exact durations above two units) show that rounding a valid exact "
+    "timeline to k decimals lands inside these hypotheses. fixDurationsOnly_spec proves what the deprecated reader "
+    "option (fix_block_format_durations=True runs only fix_blockFormat_durations) guarantees: rtimes unchanged, "
+    "contiguous, idempotent, = first stage of the full repair; durationsOnly_leaves_interp_too_long and "
+    "durationsOnly_leaves_block_past_object prove that it does NOT repair interpolation lengths or the object clamp "
+    "(renderer still rejects), on inputs inside the hypotheses. "
+    "The model is tied to the code on every run by repairing real ADM documents (generated timelines rounded to 2..5 "
+    "decimals; and whole documents with nested/shared packs, several objects per channel, silent tracks, nested "
+    "objects, v1 and v2 track references, inconsistent references) with the real function, interpreting them with the "
+    "real metadata interpreters and diffing exact fractions/verdicts/channel pairings against the Lean driver; the "
+    "Lean rounding functions are diffed against the generator's; all entry points (library, ear-render and ear-utils "
+    "options, reader option of load_axml_string/openBw64Adm) are run in-process.",
     note="Trusted: Lean kernel, hand transliteration of timing_fixes.py and the interpreters' timing checks + "
-    "correspondence harness. Excluded points (stated as hypotheses, run on the real code and counted): last block "
-    "starting at/after the object's end (ValueError), rtime xor duration, several/mixed untimed blocks, decreasing "
-    "rtimes, negative last duration. The reader option only performs the duration pass (as on the original tree).",
+    "correspondence harness; the pack allocator model is C06/C07's. Excluded points (stated as hypotheses, run on the "
+    "real code and counted): last block starting at/after the object's end (ValueError), rtime xor duration, "
+    "several/mixed untimed blocks, decreasing rtimes, negative last duration, an audioObject with a duration whose "
+    "references are conflicting/ambiguous (AdmFormatRefError escapes from the repair: excluded_doc_conflicting_refs). "
+    "The reader option only performs the duration pass (as on the original tree), so through that entry point the "
+    "property's interpolationLength / object-duration clauses do not hold (proved counter-examples, harness predicate "
+    "for that entry point only demands what fixDurationsOnly_spec states). Matrix and HOA packs are outside the "
+    "document-level model (their output channels / single untimed blocks are clamped like any other channel in the "
+    "code; not generated).",
     technique="Lean 4 proof (list induction + linear arithmetic over Rat) about a transliterated model + differential "
     "correspondence on real ADM documents + direct-predicate search",
     design_ref="DESIGN.md section 4, C15",
